@@ -435,6 +435,66 @@ def check_variance_evaluated_per_step(rep: Report, ix):
     rep.floor("stochastic stepper factories inspected for frozen variances", n, 3)
 
 
+def check_noise_variance_layout(rep: Report, ix):
+    """make_noise_variance interpreted (pdelint/npsem.py) on a collection [scalar, 2-vector, scalar] and on single fields:
+    the variance array handed to the steppers has one entry per *data component*, every component of field i carrying the
+    variance of field i (per-component variances for a single tensor field), shaped to broadcast over the grid axes"""
+    import numpy as _np
+
+    from .. import npsem as ns
+
+    cands = [g for g in ix.funcs("pde/pdes/base.py", "SDEBase.make_noise_variance") if g.node.name == "make_noise_variance" and not any(d.endswith("overload") for d in g.decorator_names)]
+    if len(cands) != 1:
+        raise AnalysisError("SDEBase.make_noise_variance: implementation not found among overloads")
+    f = cands[0]
+    m = f.module
+    base_vars = {n: ns.Opaque(n) for n in list(m.imports) + list(m.functions) + list(m.classes) + list(m.assigns) if "." not in n}
+    base_vars.update({"np": ns.NP, "DataFieldBase": ns.KindRef("DataFieldBase"), "FieldCollection": ns.KindRef("FieldCollection")})
+    backend = ns.Stub("backend", numpy_to_native=lambda x: x)
+    cases = []
+    # collection: fields of 1, 2, 1 data components on a 2 x 3 grid
+    s3 = ns.sym_array("s", (3,), positive=True)
+    coll = ns.Stub("state", grid=ns.Stub("grid", num_axes=2), _slices=[slice(0, 1), slice(1, 3), slice(3, 4)], data=ns.sym_array("u", (4, 2, 3)), data_shape=(4,), __len__=lambda: 3, __kind__=("FieldCollection", "FieldBase"))
+    cases.append(("collection [scalar, vector, scalar], per-field variances", coll, s3, _np.array([s3[0], s3[1], s3[1], s3[2]], dtype=object).reshape(4, 1, 1)))
+    s1 = sp.Symbol("s", positive=True)
+    cases.append(("collection, one variance for all", coll, s1, _np.array([s1] * 4, dtype=object).reshape(4, 1, 1)))
+    vec = ns.Stub("state", grid=ns.Stub("grid", num_axes=2), data=ns.sym_array("u", (2, 2, 3)), data_shape=(2,), __kind__=("VectorField", "DataFieldBase", "FieldBase"))
+    s2 = ns.sym_array("s", (2,), positive=True)
+    cases.append(("vector field, per-component variances", vec, s2, s2.reshape(2, 1, 1)))
+    sca = ns.Stub("state", grid=ns.Stub("grid", num_axes=1), data=ns.sym_array("u", (3,)), data_shape=(), __kind__=("ScalarField", "DataFieldBase", "FieldBase"))
+    cases.append(("scalar field", sca, s1, _np.array(s1, dtype=object).reshape(1)))
+    for tag, state, noise, want in cases:
+        for ret_diff in (False, True):
+            pde = ns.Stub("pde", noise=noise, _logger=ns.Opaque("logger"))
+            sem = ns.NpSem(where=f.ref)
+            scope = ns.Scope(base_vars)
+            # len(state) for the collection stand-in
+            if "__len__" in state._attrs:
+                scope.set("len", lambda x, _s=state: 3 if x is _s else len(x))
+            try:
+                fn = sem.run_function(f.node, {}, (pde, state), {"backend": backend, "ret_diff": ret_diff}, outer=scope)
+                res = fn(state._attrs["data"], sp.Symbol("t"))
+            except ns.Raised as e:
+                rep.oblige(f"noise-variance layout: {tag}", False, e.what)
+                rep.violation("C13.variance-layout", f"{f.ref}::raises", f"{tag}: make_noise_variance raises `{e.what}`")
+                continue
+            except ns.Unsupported as e:
+                raise AnalysisError(f"{f.ref} [{tag}]: {e}") from e
+            var = res[0] if ret_diff else res
+            diff = ns.arrays_equal(var, want) if _np.shape(var) == _np.shape(want) else [("shape", _np.shape(var), _np.shape(want))]
+            bad_un = ns.has_uninit(var)
+            ok = not diff and not bad_un
+            rep.oblige(f"noise-variance layout: {tag}: ret_diff={ret_diff}", ok, None if ok else str((diff or ["uninitialised entries"])[0])[:160])
+            if not ok:
+                what = "some data components never receive a variance (uninitialised memory)" if bad_un and not diff else (f"shape {diff[0][1]} instead of {diff[0][2]}" if diff[0][0] == "shape" else f"component {tuple(diff[0][0])[0]} gets `{diff[0][1]}`, expected `{diff[0][2]}`")
+                rep.violation(
+                    "C13.variance-layout",
+                    f"{f.ref}::{tag.split(',')[0].split(' ')[0]}",
+                    f"{tag}: {what} (s_i = variance given for field/component i): not every data component of a field evolves with that field's noise",
+                    line=f.node.lineno,
+                )
+
+
 def check(tier: str) -> Report:
     rep = Report("C13", tier, "proof", "abstract interpretation of the stochastic stepping closures with uninterpreted rate/variance/noise; symbolic increment identity; event-order and generator rules")
     rep.explanation = (
@@ -462,6 +522,7 @@ def check(tier: str) -> Report:
     section(check_semi_implicit)
     section(check_interpretations)
     section(check_gaussian_noise)
+    section(check_noise_variance_layout)
     section(check_noise_variance)
     section(check_dispatch)
     check_rng_binding(rep, ix)
